@@ -32,7 +32,7 @@ import (
 
 const porcupineTimeout = 60 * time.Second
 
-var watchdog = 60 * time.Second // a fired watchdog is never a verdict by itself
+var watchdog = 120 * time.Second // generous (shared box); a fired watchdog is never a verdict by itself
 
 // plan is one planned operation of a session program.
 type plan struct {
@@ -680,7 +680,7 @@ func main() {
 		"each case is one concurrent history of lock operations (2-6 sessions, 2-3 names) in one of three modes (LockSubsystem API, GET_LOCK family in-process, GET_LOCK family over server connections with disconnects); an evaluation is one per-name sub-history checked by porcupine against the (owner,count) model, or one direct mutual-exclusion / program-order / existence-monotonicity check; distinct = (mode, operation, how issued, outcome, overlapped-or-alone)")
 	r.Assume("existence of a lock name is not part of the model (creation is published before the acquiring CAS); LockFree/LockDoesNotExist and ErrLockNotOwned/ErrLockDoesNotExist are one outcome class each")
 	r.Assume("ReleaseAll and disconnect are decomposed into one release per name sharing the call/return interval; ReleaseAll's count may be the number of names or the number of acquisitions held")
-	r.Assume("blocking acquires are only issued on a name above every name the session holds (no deadlock by construction); a history that does not finish within the 60 s watchdog is inconclusive unless it is stuck again twice when re-run alone")
+	r.Assume("blocking acquires are only issued on a name above every name the session holds (no deadlock by construction); a history that does not finish within the 120 s watchdog is inconclusive unless it is stuck again twice when re-run alone")
 	r.Extra("race_build", g4lib.RaceEnabled())
 	// Engines are created one after the other before any concurrency: sqle.New re-initialises the
 	// process-global status variables, which races with every other live engine (a harness artifact,
